@@ -5,7 +5,7 @@
 (* operator without rule (abs, floor) makes D fail exactly when it is applied to something.                     *)
 (* Second derivatives (D(D(e))) are checked as well.  Conclusive cases are counted to exclude vacuity.          *)
 EXTENDS PartialImpl, DiffTables, TLC
-CONSTANTS MaxUn, Stats
+CONSTANTS MaxUn, Stats, SecondOrder
 VARIABLE c
 T == TDiff
 X == <<120>>  Y == <<121>>  Z == <<122>>
@@ -18,14 +18,14 @@ UnOpsAll == {o \in 1..Len(T) : T[o].un}
 RECURSIVE UChain(_, _)
 UChain(t, u) == IF u = 0 THEN {t} ELSE UNION {UChain(Un(o, t), u - 1) : o \in UnOpsAll}
 LeafU(u) == UNION {UChain(l, u) : l \in Leaves}
-\* seeds: root operator (0 = no binary operator) x number of unary operators on top of the root
-Init == c \in {[root |-> r, top |-> u] : r \in {0} \cup {OpBySem(T, s) : s \in BinSems}, u \in 0..MaxUn}
+\* seeds: root operator (0 = no binary operator) x unary operators on top x the complete left subtree, so that the
+\* enumeration is spread over many initial states (TLC's workers share them); Next adds the right subtree
+Init == c \in UNION { {[root |-> 0, top |-> u, e |-> e] : e \in LeafU(u)} : u \in 0..MaxUn }
+           \cup UNION { {[root |-> OpBySem(T, x[1]), top |-> x[2], ul |-> x[3], l |-> l] : l \in LeafU(x[3])}
+                         : x \in {y \in BinSems \X (0..MaxUn) \X (0..MaxUn) : y[2] + y[3] <= MaxUn} }
 Next ==
   /\ "e" \notin DOMAIN c
-  /\ IF c.root = 0
-     THEN \E e \in LeafU(c.top) : c' = c @@ [e |-> e]
-     ELSE \E ul \in 0..(MaxUn - c.top) : \E ur \in 0..(MaxUn - c.top - ul) :
-            \E l \in LeafU(ul), r \in LeafU(ur) : \E e \in UChain(Bin(c.root, l, r), c.top) : c' = c @@ [e |-> e]
+  /\ \E ur \in 0..(MaxUn - c.top - c.ul) : \E r \in LeafU(ur) : \E e \in UChain(Bin(c.root, c.l, r), c.top) : c' = c @@ [e |-> e]
 
 RECURSIVE HasRuleless(_)
 HasRuleless(t) == CASE t.k = "un" -> T[t.o].usem \in {"abs", "floor"} \/ HasRuleless(t.a)
@@ -37,7 +37,7 @@ RulesOk ==
       /\ d.err <=> HasRuleless(c.e)                       \* an operator without rule makes differentiation fail
       /\ ~d.err =>
            /\ IsPartial(T, d.t, c.e, EnvDir(k)) # "no"
-           /\ LET dd == D(T, d.t, Names[k]) IN ~dd.err /\ IsPartial(T, dd.t, d.t, EnvDir(k)) # "no"
+           /\ (SecondOrder => LET dd == D(T, d.t, Names[k]) IN ~dd.err /\ IsPartial(T, dd.t, d.t, EnvDir(k)) # "no")
 \* statistics against vacuity: how many trees (<= 1 unary) are conclusive, and the judge tells right from wrong
 All1 == UNION {LeafU(u) : u \in 0..1}
         \cup UNION { UNION { UNION { UChain(Bin(OpBySem(T, s), l, r), 0) : l \in LeafU(ul), r \in LeafU(1 - ul) } : ul \in 0..1 } : s \in BinSems }
